@@ -393,7 +393,17 @@ func ruleMapOrder(c *Ctx, r *R) {
 		r.ok(okNum, root+"|dispatcher-numbering", fn.Pos(), "items must be numbered 0,1,2,... in source order: idx is a counter that starts at 0 and is incremented exactly once per hand-over")
 		// workers propagate idx unchanged: every store to field idx in a worker is item.idx
 		okProp := false
+		var propFns []*ssa.Function
+		seenP := map[*ssa.Function]bool{}
 		for _, g := range withAnon(fn) {
+			for _, fr := range deepFrames(g, 2) {
+				if !seenP[fr.f] {
+					seenP[fr.f] = true
+					propFns = append(propFns, fr.f)
+				}
+			}
+		}
+		for _, g := range propFns {
 			instrs(g, func(b *ssa.BasicBlock, i int, in ssa.Instruction) {
 				if st, ok := in.(*ssa.Store); ok {
 					if _, f, ok := storedField(st.Addr); ok && f == "idx" {
@@ -723,10 +733,15 @@ func mapChansOf(c *Ctx, root string) mapChans {
 		if g == fn {
 			continue
 		}
-		for _, op := range chanOpsOf(g) {
-			if op.kind == "range" {
-				if cell := loadCell(op.arms[0].ch); cell != nil {
-					mc.work = cell
+		for _, fr := range deepFrames(g, 2) {
+			for _, op := range chanOpsOf(fr.f) {
+				if op.kind == "range" {
+					// the ranged-over channel, seen through the helper's parameter
+					for _, lf := range cellLeaves(op.arms[0].ch, fr.chain, 0) {
+						if cell := loadCell(lf.v); cell != nil && rootFn(cell.Parent()) == fn {
+							mc.work = cell
+						}
+					}
 				}
 			}
 		}
